@@ -1,0 +1,24 @@
+//go:build verif
+
+package builder
+
+import (
+	parser "github.com/acekingke/yaccgo/Parser"
+)
+
+// Read-only accessors for the verification harness (build tag `verif`).
+
+// VerifReduceFuncGo returns the reduce-case text the Go generator emits for the walker's grammar
+// (as buildReduceFunc leaves it in the builder; utils.ObjectMode selects the -o form).
+func VerifReduceFuncGo(w *parser.Walker) string {
+	b := NewTemplateBuilder(w)
+	b.buildReduceFunc()
+	return b.ReduceFunc
+}
+
+// VerifReduceFuncTs is the same for the TypeScript generator (the whole ReduceFunc block).
+func VerifReduceFuncTs(w *parser.Walker) string {
+	b := NewTsBuilder(w)
+	b.buildReduceFunc()
+	return b.ReduceFunc
+}
